@@ -40,6 +40,7 @@ type SyncEv struct {
 	Served    bool   `json:"served"`   // serve: a request was actually outstanding
 	Panicked  bool   `json:"panicked"`
 	Free      bool   `json:"free"` // hand-built scenario: judged by the property layer only
+	ServedN   int    `json:"servedN"` // serve: how many headers the getter actually returned
 	DupNil    int    `json:"dupNil"` // collect: how many concurrent deliveries of the same header were accepted
 	HeadRet   int    `json:"headRet"`
 }
@@ -58,6 +59,7 @@ func TestSyncer(t *testing.T) {
 		N := mbt.Int(c, "n")
 		hist := mbt.List(c, "hist")
 		free := mbt.Bool(c, "free")
+		nodrift := free || mbt.Bool(c, "nodrift")
 		var evs []SyncEv
 		var drift []string
 		// scenarios in which a goroutine waits on the handler's mutex cannot run in a bubble (a mutex wait is not a
@@ -95,6 +97,9 @@ func TestSyncer(t *testing.T) {
 					return f, &header.VerifyError{Reason: vh.ErrType, SoftFailure: true}
 				case "fresh":
 					return chain.At(uint64(N)), nil
+				case "adjacent": // an honest answer: the header right above the store head
+					hd, _ := n.st.Head(bg)
+					return chain.At(hd.Height() + 1), nil
 				}
 				return nil, errors.New("scripted: no head")
 			}
@@ -107,6 +112,7 @@ func TestSyncer(t *testing.T) {
 			serveCh := make(chan serveOutcome)
 			type pendingReq struct{ from, to int }
 			var cur *pendingReq
+			lastServed := 0
 			n.get.rangeFn = func(gc gcall, from *vh.Header) ([]*vh.Header, error) {
 				n.get.mu.Lock()
 				cur = &pendingReq{int(gc.H), int(gc.To)}
@@ -129,7 +135,11 @@ func TestSyncer(t *testing.T) {
 				if end > gc.To { // a contract-abiding getter never returns more than was asked for
 					end = gc.To
 				}
-				return chain.Range(from.Height()+1, end), nil
+				out := chain.Range(from.Height()+1, end)
+				n.get.mu.Lock()
+				lastServed = len(out)
+				n.get.mu.Unlock()
+				return out, nil
 			}
 			if err := n.sy.Start(bg); err != nil {
 				drift = append(drift, "start: "+err.Error())
@@ -227,11 +237,19 @@ func TestSyncer(t *testing.T) {
 						n.get.mu.Unlock()
 						ev.Served = out
 						if out {
+							n.get.mu.Lock()
+							lastServed = 0
+							n.get.mu.Unlock()
 							serveCh <- serveOutcome{k: ev.H, kind: ev.Kind}
 						}
 					}
 				}()
 				wait()
+				if ev.E == "serve" && ev.Served {
+					n.get.mu.Lock()
+					ev.ServedN = lastServed
+					n.get.mu.Unlock()
+				}
 				// observation
 				if hd, err := n.st.Head(bg); err == nil {
 					ev.Head = int(hd.Height())
@@ -286,7 +304,7 @@ func TestSyncer(t *testing.T) {
 					cancel()
 				}
 				evs = append(evs, ev)
-				if free {
+				if nodrift {
 					continue
 				}
 				if ev.Head != mbt.Int(step, "sh") || ev.Waiting != mbt.Bool(step, "wait") || ev.StateErr != mbt.Bool(step, "serr") ||
